@@ -563,6 +563,14 @@ impl TransactionalMemory {
                 ))
                 .into());
             }
+            // The magic number without room for the rest of the header is a truncated database:
+            // report it, rather than reading the header past the end of the storage
+            if initial_storage_len < DB_HEADER_SIZE as u64 {
+                return Err(StorageError::Corrupted(format!(
+                    "Database file is shorter than its header: file_len={initial_storage_len}"
+                ))
+                .into());
+            }
         } else {
             // File is empty, check that we're allowed to initialize a new database (i.e. the caller is Database::create() and not open())
             if !allow_initialize {
